@@ -37,7 +37,7 @@ def build(rnd, J_list=None, nres=None):
         i, j, k = ampkit.PAIRS[pr]
         J = J_list[n] if J_list else rnd.randrange(0, 5)
         lo, hi = mf[i] + mf[j], M0 - mf[k]
-        res[pr] = {"pair": pr, "J": J, "P": (1 if J % 2 == 0 else -1), "mass": rnd.uniform(lo + 0.05, hi - 0.05), "width": rnd.uniform(0.03, 0.3)}
+        res[pr] = {"pair": pr, "J": J, "P": (1 if J % 2 == 0 else -1), "mass": rnd.uniform(lo + 0.05, hi + 0.15), "width": rnd.uniform(0.03, 0.3)}
     return M0, mf, res
 
 
@@ -100,11 +100,13 @@ def run_config(ctx, rnd, tag, M0, mf, res, nev, cases, p4=None, pars=None, info=
             f1 = lambda x: float(np.array(x).reshape(-1)[0])
             T1 = lambda x: ampkit.T([x])
             mRe = float(mR[e])
-            qv = [f1(grp(T1(M0), T1(mRe), T1(mf[k]))), f1(grp(T1(M0), T1(m0R), T1(mf[k]))),
+            from tf_pwa.amp.core import get_relative_p2 as grp2
+            qv = [f1(grp2(T1(M0), T1(mRe), T1(mf[k]))), f1(grp2(T1(M0), T1(m0R), T1(mf[k]))),
                   f1(grp(T1(mRe), T1(mf[i]), T1(mf[j]))), f1(grp(T1(m0R), T1(mf[i]), T1(mf[j])))]
-            qargs = [(M0, mRe, mf[k]), (M0, m0R, mf[k]), (mRe, mf[i], mf[j]), (m0R, mf[i], mf[j])]
-            stmtQ = "(" + " /\\ ".join(real_stmt("get_relative_p %s %s %s" % tuple(Rq(x) for x in a), v, rtol=1e-11, atol=1e-14) for a, v in zip(qargs, qv)) + ")"
+            qargs = [("get_relative_p2", M0, mRe, mf[k]), ("get_relative_p2", M0, m0R, mf[k]), ("get_relative_p", mRe, mf[i], mf[j]), ("get_relative_p", m0R, mf[i], mf[j])]
+            stmtQ = "(" + " /\\ ".join(real_stmt("%s %s %s %s" % ((a[0],) + tuple(Rq(x) for x in a[1:])), v, rtol=1e-11, atol=1e-14) for a, v in zip(qargs, qv)) + ")"
             cases.append(("Q_" + cid, stmtQ, RT, dict(meta, layer="breakup_momenta", impl_q=qv)))
+            ctx.count("nominal_mass:" + ("inside" if qv[1] > 0 else "beyond_kinematic_limit"))
             # (A) chain amplitude from the implementation's own mR, cos(theta), q's
             expr = "res_amp_core %s %d %s %s %s %s %s %s %s %s (cos %s)" % (
                 cexpr, J, Rq(qv[0]), Rq(qv[1]), Rq(qv[2]), Rq(qv[3]), Rq(m0R), Rq(g0R), Rq(d), Rq(mRe), Rq(float(beta[e])))
@@ -147,14 +149,17 @@ def reference_density(cfg, pars, ev):
         sij = mink(pi + pj, pi + pj); mR = math.sqrt(sij); sik = mink(pi + pk, pi + pk)
         Ei = (sij + mf[i] ** 2 - mf[j] ** 2) / (2 * mR); Ek = (M0 ** 2 - sij - mf[k] ** 2) / (2 * mR)
         cth = (sik - mf[i] ** 2 - mf[k] ** 2 - 2 * Ei * Ek) / (2 * math.sqrt(Ei ** 2 - mf[i] ** 2) * math.sqrt(Ek ** 2 - mf[k] ** 2))
-        q, q0, p, p0 = relp(M0, mR, mf[k]), relp(M0, m0R, mf[k]), relp(mR, mf[i], mf[j]), relp(m0R, mf[i], mf[j])
+        q, p, p0 = relp(M0, mR, mf[k]), relp(mR, mf[i], mf[j]), relp(m0R, mf[i], mf[j])
+        q02 = (M0 - (m0R + mf[k])) * (M0 + (m0R + mf[k])) * (M0 - (m0R - mf[k])) * (M0 + (m0R - mf[k])) / (2 * M0) ** 2
+        ratio = bp(J, q02 * 9.0) / bp(J, q * q * 9.0)
+        Bq = math.sqrt(ratio) if ratio > 0 else 1.0
         gam = g0R * (p / p0) ** (2 * J + 1) * (m0R / mR) * Bp(J, p, p0) ** 2
         BW = 1 / (m0R ** 2 - sij - 1j * m0R * gam)
         c = 1
         for kk in pars:
             if kk.endswith("r") and (("total_0" in kk and name in kk) or (kk.startswith("A->" + name) and "g_ls_0" in kk) or (kk.startswith(name + "->") and "g_ls_0" in kk)):
                 c = c * pars[kk] * np.exp(1j * pars[kk[:-1] + "i"])
-        tot += c * (-1) ** J * q ** J * Bp(J, q, q0) * p ** J * Bp(J, p, p0) * BW * np.polynomial.legendre.legval(cth, [0] * J + [1])
+        tot += c * (-1) ** J * q ** J * Bq * p ** J * Bp(J, p, p0) * BW * np.polynomial.legendre.legval(cth, [0] * J + [1])
     return abs(tot) ** 2
 
 
@@ -186,7 +191,7 @@ def search(ctx, fails):
 
 def run(ctx):
     rnd = random.Random(ctx.seed * 1000003 + 4)
-    ctx.rule = ("random final/parent masses, nominal resonance masses inside the kinematic range (q0 real), 1-3 interfering resonances on distinct pairings with J in 0..4, random masses/widths/polar couplings; events from the "
+    ctx.rule = ("random final/parent masses, nominal resonance masses from just above the daughters' threshold to 0.15 beyond the kinematic limit (signed q0^2), 1-3 interfering resonances on distinct pairings with J in 0..4, random masses/widths/polar couplings; events from the "
                 "library's phase-space generator; per (config, chain, event) three certified layers K/A/D; distinct = distinct (config,chain,event); quick 6 configs x 3 events incl. "
                 "every J once, thorough 40 configs x 5 events")
     common.theorem_stage(ctx)
